@@ -54,8 +54,13 @@ CHECKS = {
              "are the C10 theorems. The impl model is tied to /repo by generated requests that spell one value "
              "as literal / variable / nested variable / variable default / schema default / null / omitted; "
              "the dictionaries the real resolvers receive are compared with the model inside Coq and with "
-             "each other. PARTIAL: 'no value of another type is ever delivered' rests on the variable-usage "
-             "validation rule (C07), not proved here.",
+             "each other. TYPE SOUNDNESS (Properties/C05Typing.v, Model/InputTyping.v has_type): a literal coerces to a value of "
+             "the declared type or to 'invalid'; coerced variables are values of their declared types; rule 5.8.5 as "
+             "implemented is a sub-typing check; hence every entry of the argument dictionary is a value of the argument's "
+             "declared type -- under named assumptions on the schema (scalar coercers return leaf values and never None, "
+             "input field names unique, input-field defaults valid: the engine does not check the last one) and, for "
+             "variables NESTED in list/object literals, under the premise that they are well-typed for their position (the "
+             "engine does not apply 5.8.5 there: known finding C07-nested-variable-usage).",
         note="Trusted: Coq kernel, correspondence harness, parser stand-in, scalar translator; directive "
              "argument positions use the same coerce_arguments code path and are exercised by C13's check.",
         design="4 C05"),
@@ -255,7 +260,9 @@ CHECKS = {
              "repeated enum value, a scalar without implementation, a non-awaitable directive hook each make the build fail; the "
              "engine's interface field-type check is exactly IsValidImplementationFieldType; an object that does not honour "
              "a declared interface (missing field, invalid field type, missing / retyped interface argument, additional "
-             "required argument, undefined or non-interface `implements`) is refused (Proofs/SchemaInterfaces.v). The check rewrites "
+             "required argument, undefined or non-interface `implements`) is refused (Proofs/SchemaInterfaces.v); an extension the "
+             "specification predicate refuses (unknown target, another kind, a member that exists already, a directive already "
+             "carried, a schema directive already there) is refused (Proofs/SchemaExtensions.v). The check rewrites "
              "valid schema models (all type kinds, several interfaces/implementers, unions, input objects, custom and "
              "type-system directives, extensions of every kind, with/without schema definition) with ~45 SDL-level violations; "
              "create_engine must raise and leave no usable engine; the build model must predict built/rejected AND the set of "
@@ -278,7 +285,11 @@ CHECKS = {
              "exactly once per value, in order, with its own argument, and each hook sees what the previous returned; a value "
              "spelled as a literal, as a whole-argument variable or with variables nested at any depth in list/object literals "
              "is delivered identically (type-level hooks skipped on the literal path exactly where they already ran at variable "
-             "coercion; input-field hooks not). The check decorates scalar, input objects, input fields, arguments, field "
+             "coercion; input-field hooks not). OUTPUT SIDE (Model/DirectivesOut.v): object / list / leaf positions annotated "
+             "with directive instances; executing the coercers with logging hooks equals the pure view for every annotated type "
+             "and value; a type's on_pre_output_coercion hooks meet every value at a position of that type exactly once, null "
+             "results and null list items included (compared inside Coq with the engine's data and invocation log for nested "
+             "object / list fields). The check decorates scalar, input objects, input fields, arguments, field "
              "definitions, object type, enum and enum value with 0-3 non-commuting tagging directive instances (random hook "
              "subsets, distinct arguments) and compares inside Coq the values resolvers receive, the field result and the "
              "multiset of post-input-coercion invocations; field / argument hooks exactly-once and the object/field/scalar "
